@@ -205,6 +205,13 @@ def check_C01(chk):
         stage_layout_drift(chk, bins)
     # both in-word select implementations: BMI2 (native) and the portable table-driven one (generic)
     stage_gen_bv(chk, bins, ["plain"], 12 if chk.thorough else 10, FAMILY_THOROUGH if chk.thorough else FAMILY_QUICK, variants=("dbg-native", "dbg-generic"))
+    # conversion from a multiset: the plain bitvector holds the distinct positions, each counted once
+    msp, rms = vlib.generate_cases(chk.work, "GenMS_conv", "GenMS", cfg_consts({"MaxU": 5 if chk.thorough else 4, "MaxVals": 5 if chk.thorough else 4}) + GEN_TAIL)
+    chk.add_tlc(rms, "GenMS multisets as conversion sources", {"behaviours": len(rms.replay_lines)})
+    st = "replay multiset cases: conversion of the multiset into a plain bitvector (content, count, equality with the directly built vector)"
+    out = chk.run_harness(bins["dbg-native"], ["replay", "--kind", "ms", "--cases", msp], st)
+    if out:
+        chk.add_replay(out, st)
     # the plain bitvector reached through the lifecycle machine: raw / width-1 integer vectors under every mutation history, then BitVector::from and enable_*
     stage_life(chk, bins, "C01", ["to:raw>plain", "enable:plain"], ops='{"mut", "to", "enable"}', kinds='{"raw", "int", "plain"}',
                maxlen=4 if chk.thorough else 3, scales=(1, 3, 64, 65), big_scales=(130, 1100) if chk.thorough else (1100,), big_stride=3 if chk.thorough else 11)
